@@ -159,11 +159,22 @@ pub fn c08_scenario(seed: u64, idx: u64) -> Scenario {
     // a small palette of distinct requests, each issued on one or more connections
     let kinds = rng.range(2, 8);
     let mut palette: Vec<Vec<u8>> = vec![];
+    let range_heavy = rng.chance(1, 3);
     for k in 0..kinds {
         let p = paths[rng.below(paths.len())].clone();
-        let r = match rng.below(12) {
+        let r = match if range_heavy { *rng.pick(&[0usize, 3, 3, 3, 3]) } else { rng.below(12) } {
             0 | 1 | 2 => get(&p),
-            3 => req("GET", &p, &[("Range", *rng.pick(&["bytes=0-9", "bytes=5-", "bytes=0-1,4-5", "bytes=-7"]))], b""),
+            3 => {
+                let a = rng.below(40);
+                let rv = match rng.below(5) {
+                    0 => format!("bytes={}-{}", a, a + rng.below(30)),
+                    1 => format!("bytes={}-", a),
+                    2 => format!("bytes={}-{},{}-{}", a, a + 3, a + 10, a + 12),
+                    3 => format!("bytes=-{}", 1 + rng.below(20)),
+                    _ => "bytes=0-0".to_string(),
+                };
+                req("GET", &p, &[("Range", &rv)], b"")
+            }
             4 => req("HEAD", &p, &[], b""),
             5 => req("OPTIONS", &p, &[("Origin", "http://a.example"), ("Access-Control-Request-Method", "GET")], b""),
             6 => get(&format!("/form-get-method?who=conn{}&n={}", k, rng.below(1000))),
